@@ -1122,7 +1122,9 @@ class Interp:
                     if ('*', i) in fr.store:
                         out[i] = fr.store[('*', i)]
                 for key in getattr(self, '_extra_keys', ()):
-                    out[key] = fr.store.get(key, TOP)
+                    # a reference to one of this function's own locals stored into a caller's place (a slice view held by
+                    # value and re-pointed: `rest = tail`) is replaced by what it designates: the frame is about to disappear
+                    out[key] = self._materialise(fr, fr.store.get(key, TOP))
                 results.append((pth, self._materialise(fr, fr.store.get(0, TOP)), out))
                 return
             elif k == 'assert':
@@ -1994,6 +1996,8 @@ class Interp:
         back = []
         nested_n = [0]
         nested_back = {}
+        back_outer = []
+        self._back_outer = back_outer
 
         def restore(x, depth=0):
             # the inverse of deep_caps on a value that is written back to the caller's frame: references to the places
@@ -2053,6 +2057,9 @@ class Interp:
                 keys = [('up', k, len(fr.store), lvl) for lvl in range(len(chain))]
                 for lvl in range(len(chain) - 1):
                     extra[keys[lvl]] = Ref(keys[lvl + 1], [])
+                    # an outer level is itself a place of the caller (`rest: &[u8]` captured by unique borrow and
+                    # re-pointed by the closure): written back when the closure stored something else there
+                    back_outer.append((keys[lvl], chain[lvl], keys[lvl + 1]))
                 extra[keys[-1]] = deep_caps(val, ('cap', k))
                 caps.append(Ref(keys[0], []))
                 back.append((keys[-1], chain[-1]))
@@ -2144,6 +2151,15 @@ class Interp:
                 ov_ = restore(outs[key])
                 fr.store[v.root] = fr._update(fr.store.get(v.root), list(v.proj), ov_) if v.proj else ov_
         backmap = dict(back)
+        for key, v, nxt in getattr(self, '_back_outer', []):
+            ov_ = outs.get(key)
+            if ov_ is None or (isinstance(ov_, Ref) and ov_.root == nxt and not ov_.proj):
+                continue        # still points where it pointed
+            if isinstance(ov_, Ref) and ov_.root in backmap:
+                o_ = backmap[ov_.root]
+                ov_ = Ref(o_.root, list(o_.proj) + list(ov_.proj))
+            ov_ = restore(ov_)
+            fr.store[v.root] = fr._update(fr.store.get(v.root), list(v.proj), ov_) if v.proj else ov_
 
         def unroot(x):
             # references into re-rooted captured state that escape through the return value
